@@ -225,7 +225,7 @@ def brackets(in_file, in_encoding, **params):
                             if not 'quiet' in params:
                                 print("got empty POS", file=sys.stderr)
                             # last token was a word
-                            queue[-1].data['word'] = queue[-1].data['label']
+                            queue[-1].data['word'] = label_token
                             # queue[-1].data['label'] = queue[-2].data['label']
                             queue[-1].data['label'] = trees.DEFAULT_LABEL
                             queue[-1].data['edge'] = trees.DEFAULT_EDGE
@@ -298,6 +298,7 @@ def brackets(in_file, in_encoding, **params):
                     pass
                 elif state in [1, 9]:
                     # phrase label, 9 when root label, 1 otherwise
+                    label_token = lextoken
                     if 'gf_split' in params:
                         label_parts = trees.parse_label(lextoken,
                                                   gf_separator=gf_separator)
